@@ -423,8 +423,9 @@ public:
             typename Container::vec_type v1, v2;
             v1.resize(vars_.size(), 0);
             v2.resize(o_.vars_.size(), 0);
+            // both are constant terms (all exponents zero)
             if (poly_.dict_.begin()->first == v1
-                || o_.poly_.dict_.begin()->first == v2)
+                && o_.poly_.dict_.begin()->first == v2)
                 return true;
             return false;
         } else if (0 == poly_.dict_.size() && 0 == o_.poly_.dict_.size()) {
